@@ -168,6 +168,7 @@ func (c *Ctx) closureRunsUnderLock(cl *ssa.Function, lockPath string) bool {
 
 func c02(c *Ctx) {
 	defer c02writesAreAnnounced(c)
+	defer c.idleArmedAfterFullFlush("R02.10")
 	P, R := c.P, c.R
 	R.Explain("R02.1", "T-NODROP: no call result of type state.Update / []state.Update in internal/state and internal/backend is discarded (unused tuple component or value without uses), and a result taken from a tuple is consumed - appended, passed on, stored or returned - on every path from the call to a nil-error return of the function (paths on which the value was tested nil/empty excepted).")
 	R.Explain("R02.2", "the commit wrappers (stateDBWrite, stateDBWriteResult, userDBWrite, userDBWriteResult) hand the updates returned by the transaction closure to the broadcast (QueueOrApplyStateUpdate / queueStateUpdate) on every success path, except when the update list is empty.")
